@@ -3,15 +3,15 @@ import concurrent.futures as cf, json, os, re
 import vlib
 
 
-def sweep(v, kind, tier, seed, wd, nshards=16):
+def sweep(v, kind, tier, seed, wd, nshards=16, corpus=None, tag=""):
     """kind: 'asan' (C02/C03: sanitizers, no allocation shim) or 'plain' (C18: allocation shim, DECLARE hooks)."""
     exe = vlib.build_drv("drv_fault", kind)
     level = 0 if tier == "quick" else 2
-    corpus = os.path.join(vlib.ROOT, "corpus")
+    corpus = corpus or os.path.join(vlib.ROOT, "corpus")
     files = []
 
     def one(sh):
-        f = os.path.join(wd, "fault_%s_%02d.ndjson" % (kind, sh))
+        f = os.path.join(wd, "fault_%s%s_%02d.ndjson" % (kind, tag, sh))
         env = dict(vlib.SAN_ENV) if kind == "asan" else {}
         env["VERIF_RECORDS"] = f
         rc, out = vlib.run("%s sweep %s %d %d %d %d > /dev/null" % (exe, corpus, sh, nshards, level, seed), timeout=20000, env=env)
@@ -25,7 +25,7 @@ def sweep(v, kind, tier, seed, wd, nshards=16):
             raise vlib.Infra("drv_fault shard %d rc=%d %s" % (sh, rc, out[-600:]))
         probes += int(m.group(1))
         files.append(f)
-    merged = os.path.join(wd, "fault_%s.ndjson" % kind)
+    merged = os.path.join(wd, "fault_%s%s.ndjson" % (kind, tag))
     with open(merged, "w") as o:
         for f in files:
             o.write(open(f).read())
